@@ -1,153 +1,301 @@
 #!/usr/bin/env python3
 """Program generator: writes engine/h_prog/src/generated.rs — random type definitions (C09) and random
-interface / proxy pairs (C26, C27, C28, C33) with, for every item, what the generator's own table says
-its D-Bus signature is. A pure function of --seed.
+interface / proxy pairs (C26, C27, C28, C33) together with, for every item, what the generator's OWN
+table says its D-Bus signature and wire value are (never taken from the library). A pure function of
+--seed.
 """
 import argparse, random
 
 BASIC = [('u8', 'y'), ('u16', 'q'), ('u32', 'u'), ('u64', 't'), ('i16', 'n'), ('i32', 'i'), ('i64', 'x'), ('f64', 'd'), ('bool', 'b'), ('String', 's'), ('OwnedObjectPath', 'o')]
+# built-in impls of the library for std types (signatures from the documentation of the impls)
+STD = [('char', 's'), ('std::net::Ipv4Addr', '(yyyy)'), ('std::time::Duration', '(tu)'), ('std::num::NonZeroU32', 'u'), ('std::num::Wrapping<i32>', 'i'), ('std::net::IpAddr', '(uay)')]
 KEYS = [('u8', 'y'), ('u32', 'u'), ('String', 's'), ('i64', 'x'), ('u16', 'q')]
+MAXSIG = 150
+
+WORDS = ['get', 'put', 'frob', 'value', 'list', 'node', 'x2', 'state', 'name', 'zap', 'item', 'all', 'q', 'data', 'info']
+DOCS = [
+    'plain text',
+    'a < b && c > d',
+    'ends a comment --> early',
+    'double -- dash',
+    'cdata ]]> end & "quotes" \'apos\'',
+    '<tag attr="1">text</tag>',
+    'unicode é世界',
+    'trailing dash -',
+    '&amp; already escaped &lt;',
+]
+
+
+class Ty:
+    def __init__(self, rust, sig, nest=0, val_ok=False, ord_ok=False):
+        self.rust, self.sig, self.nest, self.val_ok, self.ord_ok = rust, sig, nest, val_ok, ord_ok
+
+
+def rstr(s):
+    """a Rust string literal"""
+    out = '"'
+    for ch in s:
+        if ch == '\\':
+            out += '\\\\'
+        elif ch == '"':
+            out += '\\"'
+        elif ch == '\n':
+            out += '\\n'
+        elif ord(ch) < 0x20 or ord(ch) > 0x7e:
+            out += '\\u{%x}' % ord(ch)
+        else:
+            out += ch
+    return out + '"'
+
+
+def pascal(s):
+    out, cap = '', True
+    for ch in s:
+        if ch in '_-':
+            cap = True
+        elif cap:
+            out += ch.upper()
+            cap = False
+        else:
+            out += ch
+    return out
 
 
 class G:
     def __init__(self, seed):
         self.r = random.Random(seed)
-        self.types = []  # (name, sig, nesting, kind)
+        self.seed = seed
+        self.types = []  # dicts: name sig nest kind value
         self.out = []
 
     # ---- field types ----------------------------------------------------------------------------
-    def field_type(self, depth=0, allow_derived=True, allow_variant=True):
+    def basic(self):
+        t, s = self.r.choice(BASIC)
+        return Ty(t, s, 0, True, t not in ('f64',))
+
+    def field_type(self, depth=0, allow_derived=True, allow_variant=True, budget=MAXSIG, val_only=False):
+        """a random field / argument type whose signature is at most `budget` bytes"""
+        r = self.r
+        for _ in range(20):
+            t = self._field_type(depth, allow_derived, allow_variant, val_only)
+            if len(t.sig) <= budget and (t.val_ok or not val_only):
+                return t
+        return self.basic()
+
+    def _field_type(self, depth, allow_derived, allow_variant, val_only):
         r = self.r
         choices = ['basic'] * 5
+        if not val_only:
+            choices += ['std'] * 2
         if depth < 2:
-            choices += ['vec', 'vec', 'map', 'tuple', 'arr']
-        if allow_derived and self.types:
+            choices += ['vec', 'vec', 'map', 'tuple']
+            if not val_only:
+                choices += ['arr', 'deque', 'boxed', 'set']
+        cands = [t for t in self.types if t['kind'] != 'unit-struct' and (t['value'] or not val_only)]
+        if allow_derived and cands:
             choices += ['derived'] * 4
-        if allow_variant and depth < 2:
+        if allow_variant and depth < 2 and not val_only:
             choices += ['variant']
         k = r.choice(choices)
+        sub = lambda: self._field_type(depth + 1, allow_derived, allow_variant, val_only)
         if k == 'basic':
-            t, s = r.choice(BASIC)
-            return t, s, 0
+            return self.basic()
+        if k == 'std':
+            t, s = r.choice(STD)
+            return Ty(t, s, 0, False, False)
         if k == 'variant':
-            return 'OwnedValue', 'v', 0
+            return Ty('OwnedValue', 'v', 0, False, False)
         if k == 'derived':
-            name, s, n, kind = r.choice([t for t in self.types if t[3] != 'unit-struct'])
-            return name, s, n
+            t = r.choice(cands)
+            return Ty(t['name'], t['sig'], t['nest'], t['value'], False)
         if k == 'vec':
-            t, s, n = self.field_type(depth + 1, allow_derived, allow_variant)
-            return f'Vec<{t}>', 'a' + s, n
-        if k == 'map':
-            if r.random() < 0.5:
-                t, s, n = self.field_type(depth + 1, allow_derived, allow_variant)
-                return f'HashMap<String, {t}>', 'a{s' + s + '}', n
+            e = sub()
+            return Ty(f'Vec<{e.rust}>', 'a' + e.sig, e.nest, e.val_ok, False)
+        if k == 'deque':
+            e = sub()
+            return Ty(f'VecDeque<{e.rust}>', 'a' + e.sig, e.nest, False, False)
+        if k == 'boxed':
+            e = sub()
+            return Ty(f'Box<{e.rust}>', e.sig, e.nest, False, False)
+        if k == 'set':
             kt, ks = r.choice(KEYS)
-            t, s, n = self.field_type(depth + 1, allow_derived, allow_variant)
-            return f'BTreeMap<{kt}, {t}>', 'a{' + ks + s + '}', n
+            return Ty(f'BTreeSet<{kt}>', 'a' + ks, 0, False, False)
+        if k == 'map':
+            e = sub()
+            if r.random() < 0.5:
+                return Ty(f'HashMap<String, {e.rust}>', 'a{s' + e.sig + '}', e.nest, e.val_ok, False)
+            kt, ks = r.choice(KEYS)
+            return Ty(f'BTreeMap<{kt}, {e.rust}>', 'a{' + ks + e.sig + '}', e.nest, False, False)
         if k == 'tuple':
-            parts = [self.field_type(depth + 1, allow_derived, allow_variant) for _ in range(r.randint(2, 3))]
-            return '(' + ', '.join(p[0] for p in parts) + ')', '(' + ''.join(p[1] for p in parts) + ')', max(p[2] for p in parts)
-        t, s, n = self.field_type(depth + 1, allow_derived, allow_variant)
-        return f'[{t}; 2]', '(' + s + s + ')', n
+            parts = [sub() for _ in range(r.randint(2, 3))]
+            return Ty('(' + ', '.join(p.rust for p in parts) + ')', '(' + ''.join(p.sig for p in parts) + ')', max(p.nest for p in parts), all(p.val_ok for p in parts) and depth == 0, False)
+        e = sub()
+        return Ty(f'[{e.rust}; 2]', '(' + e.sig + e.sig + ')', e.nest, False, False)
+
+    def fields(self, lo, hi, **kw):
+        n = self.r.randint(lo, hi)
+        fs, left = [], MAXSIG - 4
+        for i in range(n):
+            f = self.field_type(budget=max(left - (n - i - 1), 1), **kw)
+            left -= len(f.sig)
+            fs.append(f)
+        return fs
 
     # ---- derived types --------------------------------------------------------------------------
-    def gen_type(self, i):
+    def gen_type(self, i, kind=None, fixed_fields=None):
         r = self.r
         name = f'T{i}'
-        kind = r.choice(['named-struct'] * 4 + ['tuple-struct'] * 2 + ['newtype'] * 2 + ['unit-enum', 'repr-enum', 'string-enum', 'newtype-enum', 'struct-enum', 'dict-struct', 'dict-struct'] + (['unit-struct'] if i % 11 == 5 else []))
+        if kind is None:
+            kind = r.choice(['named-struct'] * 4 + ['tuple-struct'] * 2 + ['newtype'] * 2 + ['value-struct'] * 2 + ['unit-enum', 'repr-enum', 'string-enum', 'newtype-enum', 'struct-enum', 'dict-struct', 'dict-struct'] + (['unit-struct'] if i % 11 == 5 else []))
         D = '#[derive(Debug, Clone, PartialEq, Serialize, Deserialize, Type)]'
+        DV = '#[derive(Debug, Clone, PartialEq, Serialize, Deserialize, Type, Value, OwnedValue)]'
         o = self.out
-        if kind == 'named-struct':
-            fs = [self.field_type() for _ in range(r.randint(1, 4))]
-            o.append(D)
+        value = False
+        if kind in ('named-struct', 'value-struct'):
+            value = kind == 'value-struct'
+            fs = fixed_fields or self.fields(1, 4, val_only=value)
+            o.append(DV if value else D)
             o.append(f'pub struct {name} {{')
             for k, f in enumerate(fs):
-                o.append(f'    pub f{k}: {f[0]},')
+                o.append(f'    pub f{k}: {f.rust},')
             o.append('}')
             o.append(f'impl Gen for {name} {{ fn gen(src: &mut Src, fuel: &mut u32) -> Self {{ {name} {{ ' + ', '.join(f'f{k}: Gen::gen(src, fuel)' for k in range(len(fs))) + ' } } }')
-            sig = '(' + ''.join(f[1] for f in fs) + ')'
-            nest = 1 + max(f[2] for f in fs)
+            o.append(f'impl ToR for {name} {{ fn rsig() -> RSig {{ RSig::St(vec![' + ', '.join(f'<{f.rust} as ToR>::rsig()' for f in fs) + f']) }} fn to_r(&self) -> RVal {{ RVal::St(vec![' + ', '.join(f'self.f{k}.to_r()' for k in range(len(fs))) + ']) } }')
+            sig = '(' + ''.join(f.sig for f in fs) + ')'
+            nest = 1 + max(f.nest for f in fs)
         elif kind == 'tuple-struct':
-            fs = [self.field_type() for _ in range(r.randint(2, 4))]
+            fs = self.fields(2, 4)
             o.append(D)
-            o.append(f'pub struct {name}(' + ', '.join('pub ' + f[0] for f in fs) + ');')
+            o.append(f'pub struct {name}(' + ', '.join('pub ' + f.rust for f in fs) + ');')
             o.append(f'impl Gen for {name} {{ fn gen(src: &mut Src, fuel: &mut u32) -> Self {{ {name}(' + ', '.join('Gen::gen(src, fuel)' for _ in fs) + ') } }')
-            sig = '(' + ''.join(f[1] for f in fs) + ')'
-            nest = 1 + max(f[2] for f in fs)
+            o.append(f'impl ToR for {name} {{ fn rsig() -> RSig {{ RSig::St(vec![' + ', '.join(f'<{f.rust} as ToR>::rsig()' for f in fs) + f']) }} fn to_r(&self) -> RVal {{ RVal::St(vec![' + ', '.join(f'self.{k}.to_r()' for k in range(len(fs))) + ']) } }')
+            sig = '(' + ''.join(f.sig for f in fs) + ')'
+            nest = 1 + max(f.nest for f in fs)
         elif kind == 'newtype':
             f = self.field_type()
             o.append(D)
-            o.append(f'pub struct {name}(pub {f[0]});')
+            o.append(f'pub struct {name}(pub {f.rust});')
             o.append(f'impl Gen for {name} {{ fn gen(src: &mut Src, fuel: &mut u32) -> Self {{ {name}(Gen::gen(src, fuel)) }} }}')
-            sig = f[1]
-            nest = 1 + f[2]
+            o.append(f'impl ToR for {name} {{ fn rsig() -> RSig {{ <{f.rust} as ToR>::rsig() }} fn to_r(&self) -> RVal {{ self.0.to_r() }} }}')
+            sig = f.sig
+            nest = 1 + f.nest
         elif kind == 'unit-struct':
             o.append(D)
             o.append(f'pub struct {name};')
             o.append(f'impl Gen for {name} {{ fn gen(_src: &mut Src, _fuel: &mut u32) -> Self {{ {name} }} }}')
+            o.append(f'impl ToR for {name} {{ fn rsig() -> RSig {{ RSig::St(vec![]) }} fn to_r(&self) -> RVal {{ RVal::St(vec![]) }} }}')
             sig = ''
             nest = 1
         elif kind in ('unit-enum', 'string-enum'):
             nv = r.randint(1, 5)
-            o.append(D)
+            value = True
+            o.append(DV)
             if kind == 'string-enum':
                 o.append('#[zvariant(signature = "s")]')
             o.append(f'pub enum {name} {{ ' + ', '.join(f'V{k}' for k in range(nv)) + ' }')
             o.append(f'impl Gen for {name} {{ fn gen(src: &mut Src, _fuel: &mut u32) -> Self {{ match src.below({nv}) {{ ' + ' '.join(f'{k} => {name}::V{k},' for k in range(nv - 1)) + f' _ => {name}::V{nv - 1} }} }} }}')
+            if kind == 'string-enum':
+                o.append(f'impl ToR for {name} {{ fn rsig() -> RSig {{ RSig::S }} fn to_r(&self) -> RVal {{ RVal::S(match self {{ ' + ' '.join(f'{name}::V{k} => "V{k}",' for k in range(nv)) + ' }.to_string()) } }')
+            else:
+                o.append(f'impl ToR for {name} {{ fn rsig() -> RSig {{ RSig::U }} fn to_r(&self) -> RVal {{ RVal::U(match self {{ ' + ' '.join(f'{name}::V{k} => {k},' for k in range(nv)) + ' }) } }')
             sig = 's' if kind == 'string-enum' else 'u'
             nest = 1
         elif kind == 'repr-enum':
-            rt, rs = r.choice([('u8', 'y'), ('u16', 'q'), ('u32', 'u'), ('u64', 't'), ('i16', 'n'), ('i32', 'i'), ('i64', 'x')])
+            rt, rs, rv = r.choice([('u8', 'y', 'Y'), ('u16', 'q', 'Q'), ('u32', 'u', 'U'), ('u64', 't', 'T'), ('i16', 'n', 'N'), ('i32', 'i', 'I'), ('i64', 'x', 'X')])
             nv = r.randint(1, 5)
             o.append(f'#[repr({rt})]')
             o.append('#[derive(Debug, Clone, PartialEq, Serialize_repr, Deserialize_repr, Type)]')
             o.append(f'pub enum {name} {{ ' + ', '.join(f'V{k} = {k * 3 + 1}' for k in range(nv)) + ' }')
             o.append(f'impl Gen for {name} {{ fn gen(src: &mut Src, _fuel: &mut u32) -> Self {{ match src.below({nv}) {{ ' + ' '.join(f'{k} => {name}::V{k},' for k in range(nv - 1)) + f' _ => {name}::V{nv - 1} }} }} }}')
+            o.append(f'impl ToR for {name} {{ fn rsig() -> RSig {{ RSig::{rv} }} fn to_r(&self) -> RVal {{ RVal::{rv}(match self {{ ' + ' '.join(f'{name}::V{k} => {k * 3 + 1},' for k in range(nv)) + ' }) } }')
             sig = rs
             nest = 1
         elif kind == 'newtype-enum':
-            f = self.field_type(allow_variant=False)
+            f = fixed_fields[0] if fixed_fields else self.field_type(allow_variant=False)
             nv = r.randint(1, 3)
             o.append(D)
-            o.append(f'pub enum {name} {{ ' + ', '.join(f'V{k}({f[0]})' for k in range(nv)) + ' }')
+            o.append(f'pub enum {name} {{ ' + ', '.join(f'V{k}({f.rust})' for k in range(nv)) + ' }')
             o.append(f'impl Gen for {name} {{ fn gen(src: &mut Src, fuel: &mut u32) -> Self {{ match src.below({nv}) {{ ' + ' '.join(f'{k} => {name}::V{k}(Gen::gen(src, fuel)),' for k in range(nv - 1)) + f' _ => {name}::V{nv - 1}(Gen::gen(src, fuel)) }} }} }}')
-            sig = '(u' + f[1] + ')'
-            nest = 1 + f[2]
+            o.append(f'impl ToR for {name} {{ fn rsig() -> RSig {{ RSig::St(vec![RSig::U, <{f.rust} as ToR>::rsig()]) }} fn to_r(&self) -> RVal {{ match self {{ ' + ' '.join(f'{name}::V{k}(x) => RVal::St(vec![RVal::U({k}), x.to_r()]),' for k in range(nv)) + ' } } }')
+            sig = '(u' + f.sig + ')'
+            nest = 1 + f.nest
         elif kind == 'struct-enum':
-            fs = [self.field_type(allow_variant=False) for _ in range(r.randint(2, 3))]
+            fs = self.fields(2, 3, allow_variant=False)
             o.append(D)
-            tup = ', '.join(f[0] for f in fs)
-            named = ', '.join(f'a{k}: {f[0]}' for k, f in enumerate(fs))
+            tup = ', '.join(f.rust for f in fs)
+            named = ', '.join(f'a{k}: {f.rust}' for k, f in enumerate(fs))
             o.append(f'pub enum {name} {{ V0({tup}), V1 {{ {named} }} }}')
             g0 = ', '.join('Gen::gen(src, fuel)' for _ in fs)
             g1 = ', '.join(f'a{k}: Gen::gen(src, fuel)' for k in range(len(fs)))
             o.append(f'impl Gen for {name} {{ fn gen(src: &mut Src, fuel: &mut u32) -> Self {{ if src.bool() {{ {name}::V0({g0}) }} else {{ {name}::V1 {{ {g1} }} }} }} }}')
-            sig = '(u(' + ''.join(f[1] for f in fs) + '))'
-            nest = 1 + max(f[2] for f in fs)
+            b0 = ', '.join(f'b{k}' for k in range(len(fs)))
+            b1 = ', '.join(f'a{k}' for k in range(len(fs)))
+            inner = 'RSig::St(vec![' + ', '.join(f'<{f.rust} as ToR>::rsig()' for f in fs) + '])'
+            o.append(f'impl ToR for {name} {{ fn rsig() -> RSig {{ RSig::St(vec![RSig::U, {inner}]) }} fn to_r(&self) -> RVal {{ match self {{ {name}::V0({b0}) => RVal::St(vec![RVal::U(0), RVal::St(vec![' + ', '.join(f'b{k}.to_r()' for k in range(len(fs))) + f'])]), {name}::V1 {{ {b1} }} => RVal::St(vec![RVal::U(1), RVal::St(vec![' + ', '.join(f'a{k}.to_r()' for k in range(len(fs))) + '])]) } } }')
+            sig = '(u(' + ''.join(f.sig for f in fs) + '))'
+            nest = 1 + max(f.nest for f in fs)
         else:  # dict-struct
             simple = [('u8', 'y'), ('u32', 'u'), ('u64', 't'), ('i32', 'i'), ('bool', 'b'), ('String', 's'), ('f64', 'd'), ('Vec<String>', 'as'), ('Vec<u8>', 'ay')]
             fs = [(r.choice(simple), r.random() < 0.4) for _ in range(r.randint(1, 4))]
             rename = r.choice([None, 'PascalCase', 'kebab-case'])
-            o.append('#[derive(Debug, Clone, PartialEq, SerializeDict, DeserializeDict, Type)]')
+            value = r.random() < 0.5
+            o.append('#[derive(Debug, Clone, PartialEq, SerializeDict, DeserializeDict, Type' + (', Value, OwnedValue' if value else '') + ')]')
             o.append('#[zvariant(signature = "dict"' + (f', rename_all = "{rename}"' if rename else '') + ')]')
             o.append(f'pub struct {name} {{')
             for k, ((t, s), opt) in enumerate(fs):
                 o.append(f'    pub field_{k}: ' + (f'Option<{t}>' if opt else t) + ',')
             o.append('}')
             o.append(f'impl Gen for {name} {{ fn gen(src: &mut Src, fuel: &mut u32) -> Self {{ {name} {{ ' + ', '.join(f'field_{k}: Gen::gen(src, fuel)' for k in range(len(fs))) + ' } } }')
+            ent = []
+            for k, ((t, s), opt) in enumerate(fs):
+                key = {None: f'field_{k}', 'PascalCase': f'Field{k}', 'kebab-case': f'field-{k}'}[rename]
+                if opt:
+                    ent.append(f'if let Some(x) = &self.field_{k} {{ e.push((RVal::S("{key}".into()), RVal::V(Box::new((<{t} as ToR>::rsig(), x.to_r()))))); }}')
+                else:
+                    ent.append(f'e.push((RVal::S("{key}".into()), RVal::V(Box::new((<{t} as ToR>::rsig(), self.field_{k}.to_r())))));')
+            o.append(f'impl ToR for {name} {{ fn rsig() -> RSig {{ RSig::Dict(Box::new(RSig::S), Box::new(RSig::V)) }} fn to_r(&self) -> RVal {{ let mut e = vec![]; ' + ' '.join(ent) + ' RVal::Dict(RSig::S, RSig::V, e) } }')
             sig = 'a{sv}'
             nest = 1
         o.append('')
-        self.types.append((name, sig, nest, kind))
+        self.types.append({'name': name, 'sig': sig, 'nest': nest, 'kind': kind, 'value': value})
+        return self.types[-1]
+
+    def as_ty(self, t):
+        return Ty(t['name'], t['sig'], t['nest'], t['value'], False)
 
     def emit_types(self, n):
+        r = self.r
         for i in range(n):
             self.gen_type(i)
+        # coverage by construction: every enum / dictionary kind also appears as an array element, as a
+        # dictionary value, inside a tuple and inside a newtype variant (the contexts in which a derived
+        # signature and the serializer most easily part ways)
+        i = n
+        for kind in ('unit-enum', 'repr-enum', 'string-enum', 'newtype-enum', 'struct-enum', 'dict-struct', 'named-struct', 'tuple-struct', 'newtype'):
+            cands = [t for t in self.types[:n] if t['kind'] == kind and len(t['sig']) <= 40]
+            if not cands:
+                cands = [self.gen_type(i, kind=kind)] if kind not in ('newtype-enum', 'struct-enum', 'newtype') else [self.gen_type(i, kind=kind, fixed_fields=None)]
+                i += 1
+                if len(cands[0]['sig']) > 40:
+                    continue
+            t = self.as_ty(r.choice(cands))
+            ctx = [
+                Ty(f'Vec<{t.rust}>', 'a' + t.sig, t.nest),
+                Ty(f'HashMap<String, {t.rust}>', 'a{s' + t.sig + '}', t.nest),
+                Ty(f'({t.rust}, {t.rust})', '(' + t.sig * 2 + ')', t.nest),
+                Ty(f'BTreeMap<u8, Vec<{t.rust}>>', 'a{ya' + t.sig + '}', t.nest),
+            ]
+            r.shuffle(ctx)
+            self.gen_type(i, kind='named-struct', fixed_fields=ctx[:3])
+            i += 1
+            self.gen_type(i, kind='newtype-enum', fixed_fields=[t])
+            i += 1
         o = self.out
         o.append('pub fn types() -> Vec<TypeEntry> {')
         o.append('    vec![')
-        for name, sig, nest, kind in self.types:
-            o.append(f'        TypeEntry {{ name: "{name}", expected: "{sig}", kind: "{kind}", nesting: {nest}, check: check_type::<{name}> }},')
+        for t in self.types:
+            vc = f'Some(check_value::<{t["name"]}>)' if t['value'] else 'None'
+            o.append(f'        TypeEntry {{ name: "{t["name"]}", expected: "{t["sig"]}", kind: "{t["kind"]}", nesting: {t["nest"]}, check: check_type::<{t["name"]}>, value_check: {vc} }},')
         o.append('    ]')
         o.append('}')
         o.append('')
@@ -156,31 +304,30 @@ class G:
 def main():
     ap = argparse.ArgumentParser()
     ap.add_argument('--seed', type=int, default=0)
-    ap.add_argument('--ntypes', type=int, default=40)
+    ap.add_argument('--ntypes', type=int, default=36)
     ap.add_argument('--nifaces', type=int, default=8)
     ap.add_argument('--out', required=True)
     a = ap.parse_args()
     g = G(a.seed)
     g.out += [
         f'// GENERATED by tools/gen_prog.py --seed {a.seed} --ntypes {a.ntypes} --nifaces {a.nifaces}; do not edit',
-        '#![allow(dead_code, unused_imports, unused_variables, clippy::all)]',
-        'use crate::genval::Gen;',
-        'use crate::typecheck::{check_type, TypeEntry};',
+        '#![allow(dead_code, unused_imports, unused_variables, unused_mut, non_snake_case, clippy::all)]',
+        'use crate::genval::{Gen, ToR};',
+        'use crate::typecheck::{check_type, check_value, TypeEntry};',
         'use serde::{Deserialize, Serialize};',
         'use serde_repr::{Deserialize_repr, Serialize_repr};',
-        'use std::collections::{BTreeMap, HashMap};',
+        'use std::collections::{BTreeMap, BTreeSet, HashMap, VecDeque};',
+        'use vcore::refmodel::sig::RSig;',
+        'use vcore::refmodel::val::RVal;',
         'use vcore::src::Src;',
-        'use zvariant::{DeserializeDict, OwnedObjectPath, OwnedValue, SerializeDict, Type};',
+        'use zvariant::{DeserializeDict, OwnedObjectPath, OwnedValue, SerializeDict, Type, Value};',
         '',
         f'pub const SEED: u64 = {a.seed};',
         '',
     ]
     g.emit_types(a.ntypes)
-    try:
-        import gen_ifaces
-        gen_ifaces.emit(g, a.nifaces)
-    except ImportError:
-        g.out.append('pub fn ifaces() -> Vec<crate::ifcheck::IfaceEntry> { vec![] }')
+    import gen_ifaces
+    gen_ifaces.emit(g, a.nifaces)
     open(a.out, 'w').write('\n'.join(g.out) + '\n')
 
 
